@@ -40,6 +40,9 @@ pub struct Case {
     pub pads: Vec<u16>,
     pub in_child: bool,
     pub second_hop: bool,
+    /// inline data so large that the carrying message needs several packets
+    #[serde(default)]
+    pub multi_packet: bool,
 }
 
 fn page() -> u32 {
@@ -69,14 +72,18 @@ impl Prop for C05 {
     type Case = Case;
     const ID: &'static str = "C05";
 
+    fn setup(ctx: &Ctx) {
+        crate::props::c01::measure_capacities_for(ctx);
+    }
+
     fn cases(ctx: &Ctx) -> u32 {
         ctx.param_u64("cases", ctx.pick(2000, 30000) as u64) as u32
     }
 
     fn strategy(ctx: &Ctx) -> BoxedStrategy<Case> {
         let max_exp = ctx.param_u64("max_exp", if ctx.thorough { 22 } else { 20 }) as u32;
-        (proptest::collection::vec(region_strategy(max_exp), 1..=8), proptest::collection::vec(0u16..600, 9), any::<bool>(), any::<bool>())
-            .prop_map(|(regions, pads, in_child, second_hop)| Case { regions, pads, in_child, second_hop })
+        (proptest::collection::vec(region_strategy(max_exp), 1..=8), proptest::collection::vec(0u16..600, 9), any::<bool>(), any::<bool>(), proptest::bool::weighted(0.3))
+            .prop_map(|(regions, pads, in_child, second_hop, multi_packet)| Case { regions, pads, in_child, second_hop, multi_packet })
             .boxed()
     }
 
@@ -90,12 +97,12 @@ impl Prop for C05 {
         for (i, &len) in lens.iter().enumerate() {
             for fill in [None, Some(0u8), Some(0xA5)] {
                 for in_child in [false, true] {
-                    v.push(Case { regions: vec![Region { len, seed: i as u64 + 1, fill, clones: (i % 3) as u8, send_copy: (i % 2) as u8 }], pads: vec![0; 9], in_child, second_hop: i % 2 == 0 });
+                    v.push(Case { regions: vec![Region { len, seed: i as u64 + 1, fill, clones: (i % 3) as u8, send_copy: (i % 2) as u8 }], pads: vec![0; 9], in_child, second_hop: i % 2 == 0, multi_packet: i % 3 == 1 });
                 }
             }
         }
         // all boundary lengths together in one message, in order
-        v.push(Case { regions: lens.iter().take(8).enumerate().map(|(i, &len)| Region { len, seed: 77 + i as u64, fill: None, clones: 1, send_copy: 1 }).collect(), pads: vec![3; 9], in_child: true, second_hop: true });
+        v.push(Case { regions: lens.iter().take(8).enumerate().map(|(i, &len)| Region { len, seed: 77 + i as u64, fill: None, clones: 1, send_copy: 1 }).collect(), pads: vec![3; 9], in_child: true, second_hop: true, multi_packet: true });
         v
     }
 
@@ -118,6 +125,15 @@ fn receive(rx: &ipc::IpcReceiver<Node>) -> Result<Vec<IpcSharedMemory>, String> 
     let v = rx.recv().map_err(|e| format!("{:?}", e))?;
     let Node::List(items) = v else { return Err("not a list".into()) };
     let mut regs = vec![];
+    let mut items = items;
+    if items.len() >= 2 && matches!(items[1], Node::U32(0xe0d)) && matches!(items[0], Node::Bytes(_)) {
+        if let Node::Bytes(b) = &items[0] {
+            if b.len() > 700 && payload::fnv64(b) != payload::fnv64(&payload::stream(0xb16, b.len())) {
+                return Err("the large inline data item arrived altered".into());
+            }
+        }
+        items.drain(0..2);
+    }
     for (k, it) in items.into_iter().enumerate() {
         match it {
             Node::Shm(r) if k % 2 == 1 => regs.push(r),
@@ -215,6 +231,13 @@ fn run(case: &Case) -> Result<Outcome, Failure> {
         items.push(Node::Bytes(payload::stream(i as u64, case.pads[i % case.pads.len()] as usize)));
         items.push(Node::Shm(reg));
     }
+    if case.multi_packet {
+        // the kernel buffers hold a few hundred KiB: a 3-packet message never blocks the sender
+        let (f1, f) = crate::props::c01::capacities();
+        let n = if f1 <= 16384 { f1 + 2 * f + 7 } else { 60_000 };
+        items.insert(0, Node::Bytes(payload::stream(0xb16, n)));
+        items.insert(1, Node::U32(0xe0d));
+    }
     items.push(Node::U32(0xe0d));
     let sent = tx.send(Node::List(items));
     ensure!(sent.is_ok(), "region:send-failed", "sending {} regions failed: {:?}", n, sent.map_err(|e| e.to_string()));
@@ -285,6 +308,8 @@ fn classify(case: &Case, in_child: bool) -> Outcome {
         if cloned_sent { "+clone-sent" } else { "" },
         if in_child { "+forked-receiver" } else { "" },
         if case.second_hop { "+second-hop" } else { "" }
-    );
+    )
+    .replace("one-region", if case.multi_packet { "multi-packet-message/one-region" } else { "one-region" })
+    .replace("multi-region", if case.multi_packet { "multi-packet-message/multi-region" } else { "multi-region" });
     Outcome::new(nt, class).with("regions", case.regions.len() as u64)
 }
